@@ -123,19 +123,97 @@ theorem sound_full_fails : ¬ Sound := by
 /-! ## What the inferrer does enforce: no `AttributeError` on `None`
 
 The narrowing logic (facts from `is not None` conjuncts flowing through `and` chains and
-implication antecedents, from `is None` disjuncts through `or`, keyed by canonical
-representations) is sound. -/
+implication antecedents, from `is None` disjuncts through `or`, into generators, keyed by
+canonical representations) is sound. -/
 
-/-- **none_safety** (fragment without `any`/`all`): an accepted invariant never dereferences
-`None` on a conforming instance — *without* any assumption on operand types, boolean contexts
-or call arguments.  `key` is the inferrer's key of a node (the real one: `canon`); what is
-needed of it is injectivity (two different expressions never share a key). -/
-theorem none_safety_noquant {key : Expr → Text} (hk : Function.Injective key)
-    (Γ : TEnv) (ρ : Env) (e : Expr) (τ : Ty) (hq : noQuant e = true)
+/-- **none_safety** (whole expression language, `any`/`all` included): an invariant the
+inferrer accepts never dereferences `None` (`AttributeError` on `None` for a member or a
+method) on an instance that conforms to the declared types — *without* any assumption on
+operand types, boolean contexts or call arguments (the checks the inferrer lacks).
+
+`key` is the inferrer's key of a node (`_representation_map`; the real one is `canon`, see
+`inferC`); what is needed of it is injectivity: two different expressions never share a key.
+`EnvSafe` / `CallsConform` are about the *parameters* of the evaluation (verification
+functions, methods, float arithmetic): they do not raise `AttributeError` on `None` themselves
+and return values of their declared return type. -/
+theorem none_safety {κ : Type} [DecidableEq κ] {key : Expr → κ} (hk : Function.Injective key)
+    (Γ : TEnv) (ρ : Env) (e : Expr) (τ : Ty)
     (hwf : Γ.decls.WF) (hconf : Conforms ρ Γ) (hsafe : EnvSafe ρ) (hcalls : CallsConform ρ Γ)
     (h : infer key Γ [] e = .ok τ) : eval ρ e ≠ .noneDeref :=
-  (safe_expr hk e Γ [] ρ τ hq
+  (safe_expr hk e Γ [] ρ τ
     { conf := hconf, wf := hwf, safe := hsafe, calls := hcalls, facts := by intro e he; simp at he } h).1
+
+/-- Values of the types the inferrer does track reliably (classes, enumerations, lists,
+`Optional`s — everything but primitives and functions) are of the inferred type: the part of
+`Sound` that holds unconditionally. -/
+theorem sound_nonprimitive {κ : Type} [DecidableEq κ] {key : Expr → κ} (hk : Function.Injective key)
+    (Γ : TEnv) (ρ : Env) (e : Expr) (τ : Ty) (v : Val)
+    (hwf : Γ.decls.WF) (hconf : Conforms ρ Γ) (hsafe : EnvSafe ρ) (hcalls : CallsConform ρ Γ)
+    (h : infer key Γ [] e = .ok τ) (hτ : τ.isLoose = false) (hv : eval ρ e = .val v) : HasTy Γ.decls v τ := by
+  have g := (safe_expr hk e Γ [] ρ τ
+    { conf := hconf, wf := hwf, safe := hsafe, calls := hcalls, facts := by intro e he; simp at he } h).2 v hv
+  rcases g with g | g
+  · rw [hτ] at g; cases g
+  · exact g
+
+section
+open Classical
+
+/-- Non-vacuity of the key hypothesis: an inferrer that keys its facts by the expressions
+themselves (`key = id`) is none-safe.  (For the real keys, `canon`, injectivity on the
+sub-expressions of every generated invariant is checked by the correspondence harness:
+stream `canon`.) -/
+theorem none_safety_structural_keys (Γ : TEnv) (ρ : Env) (e : Expr) (τ : Ty)
+    (hwf : Γ.decls.WF) (hconf : Conforms ρ Γ) (hsafe : EnvSafe ρ) (hcalls : CallsConform ρ Γ)
+    (h : infer (fun e => e) Γ [] e = .ok τ) : eval ρ e ≠ .noneDeref :=
+  none_safety (fun _ _ h => h) Γ ρ e τ hwf hconf hsafe hcalls h
+
+end
+
+/-- The real inferrer (`canon` keys) under the one thing the proof needs of `canon`. -/
+theorem none_safety_canon (hcanon : Function.Injective canon) (D : Decls) (self : Text) (ρ : Env) (e : Expr) (τ : Ty)
+    (hwf : D.WF) (hconf : Conforms ρ (TEnv.forSelf D self)) (hsafe : EnvSafe ρ)
+    (hcalls : CallsConform ρ (TEnv.forSelf D self)) (h : inferC (TEnv.forSelf D self) e = .ok τ) :
+    eval ρ e ≠ .noneDeref :=
+  none_safety hcanon (TEnv.forSelf D self) ρ e τ hwf hconf hsafe hcalls h
+
+/-! ### Non-vacuity: narrowing at work on a conforming instance -/
+
+/-- `C` with `s : str` and `o : Optional[C]` -/
+def D1 : Decls :=
+  { ours := [(t "C", .cls { props := [(t "s", .prim .str), (t "o", .opt (.our (t "C")))], methods := [], descendants := [] })],
+    fns := [], consts := [] }
+
+def selfE : Expr := .name (t "self")
+
+/-- `self.o is None or self.o.s == "a"` — accepted through the `is None or …` narrowing -/
+def e1 : Expr := .or [.isNone (.member selfE (t "o")), .cmp (.member (.member selfE (t "o")) (t "s")) .eq (.const (.str (t "a")))]
+
+/-- `not (self.o is not None) or len(self.o.s) > 0` — implication antecedent -/
+def e2 : Expr :=
+  .impl (.isNotNone (.member selfE (t "o")))
+    (.cmp (.funCall lenName [.member (.member selfE (t "o")) (t "s")]) .gt (.const (.int 0)))
+
+/-- the unguarded use is rejected -/
+def e3 : Expr := .cmp (.member (.member selfE (t "o")) (t "s")) .eq (.const (.str (t "a")))
+
+/-- the guard in the consequent instead of the antecedent is rejected -/
+def e4 : Expr := .impl (.cmp (.member (.member selfE (t "o")) (t "s")) .eq (.const (.str (t "a")))) (.isNotNone (.member selfE (t "o")))
+
+example : inferC (TEnv.forSelf D1 (t "C")) e1 = .ok .bool := by decide
+example : inferC (TEnv.forSelf D1 (t "C")) e2 = .ok .bool := by decide
+example : inferC (TEnv.forSelf D1 (t "C")) e3 = .err [.instanceOptional] := by decide
+example : inferC (TEnv.forSelf D1 (t "C")) e4 = .err [.instanceOptional] := by decide
+
+/-- `self = C(s="a", o=None)` and `self = C(s="a", o=C(s="b", o=None))` -/
+def inner : Val := .inst 1 (t "C") [(t "s", .str (t "b")), (t "o", .none)]
+def ρ1 (o : Val) : Env := { ρ0 with vars := [(t "self", .inst 0 (t "C") [(t "s", .str (t "a")), (t "o", o)])] }
+
+example : (match eval (ρ1 .none) e1 with | .val (.bool true) => true | _ => false) = true := by decide
+example : (match eval (ρ1 inner) e1 with | .val (.bool false) => true | _ => false) = true := by decide
+example : (match eval (ρ1 inner) e2 with | .val (.bool true) => true | _ => false) = true := by decide
+/-- and the rejected one does dereference `None` -/
+example : (match eval (ρ1 .none) e3 with | .noneDeref => true | _ => false) = true := by decide
 
 /-! ## The tables read off the source agree with the model -/
 
